@@ -192,7 +192,7 @@ def eigh_oracle(chk, insts, name="oracle"):
 def gen_eigh(iid, rng, n, d, cls, k=None):
     """A = (M/d) diag(w) (M/d)^T with ascending rational spectrum wn/wden and an integer symmetric tangent.
     cls: 'nondeg' (integers), 'rational' (distinct, denominator 2..10), 'gap1e-3' (one pair 1e-3 apart: still
-    resolved, tau = 1/2000), 'near' (one pair 10^-k apart, k = 4..8), 'tie2' / 'tie3' / 'tieall' (exact ties),
+    resolved, tau = 1/2000), 'wide' (the same plus one eigenvalue of magnitude 300..900), 'near' (one pair 10^-k apart, k = 4..8), 'tie2' / 'tie3' / 'tieall' (exact ties),
     'tie+near' (both)."""
     for _ in range(200):
         M = orth_int(rng, n, d)
@@ -204,11 +204,18 @@ def gen_eigh(iid, rng, n, d, cls, k=None):
         elif cls == "rational":
             wden = int(rng.choice([2, 3, 5, 10]))
             w = np.sort(rng.choice(np.arange(-3 * wden, 4 * wden), size=n, replace=False))
-        elif cls in ("gap1e-3", "near"):
-            kk = 3 if cls == "gap1e-3" else k
+        elif cls in ("gap1e-3", "near", "wide"):
+            kk = 3 if cls in ("gap1e-3", "wide") else k
             wden = 10 ** kk
             base = np.sort(rng.choice(np.arange(-2, 3), size=n - 1, replace=False))
             j = int(rng.integers(0, n - 1))
+            if cls == "wide":       # a resolved 1e-3 gap next to an eigenvalue of magnitude 1e2..1e3: the gap is absolute
+                if n < 3:
+                    raise MachineryError("wide needs n >= 3")
+                j = int(rng.integers(0, n - 2))
+                base[-1] = int(rng.integers(300, 900)) * (1 if rng.integers(0, 2) else -1)
+                base = np.sort(base)
+                j = int(rng.choice([i for i in range(n - 1) if abs(base[i]) < 100]))
             w = np.sort(np.concatenate([base * wden, [base[j] * wden + 1]]))
             if kk >= 6:
                 amax = 1
